@@ -119,6 +119,9 @@ def run_property(prop, tier="quick", root="/repo/verde", overlay=None, write=Tru
         rules_mod.check(ctx)
         if tier == "thorough" and hasattr(rules_mod, "check_thorough"):
             rules_mod.check_thorough(ctx)
+        if getattr(rules_mod, "DEAD_PARAMETERS", True) and prop != "C99":
+            from .rules import common as _common
+            _common.dead_parameters(ctx)
     except UndecidedFunction as e:
         err = "ANALYSIS-UNDECIDED property=%s unsupported construct in %s" % (prop, e)
     except AnalysisError as e:
